@@ -22,6 +22,9 @@ func loadBeforeStores(fn *ssa.Function, v ssa.Value) bool {
 		return false
 	}
 	d := Desc(ld.X)
+	if ld.Parent() != nil && ld.Parent() != fn {
+		fn = ld.Parent() // the load sits in a private helper the code moved into
+	}
 	reach := blockReach(fn)
 	ok2 := true
 	EachInstr(fn, func(in ssa.Instruction) {
@@ -157,7 +160,12 @@ func runC14(p *Prog, r *Report) {
 			if len(grow) == 1 && len(clamp) == 1 {
 				// the clamp comparison lies on every path from the growth to the next use
 				var cmp ssa.Instruction
-				for _, b := range dl.fn.Blocks {
+				// (growth, clamp and timer may have moved together into a private helper)
+				home := dl.fn
+				if grow[0].In.Parent() == af[0].In.Parent() {
+					home = grow[0].In.Parent()
+				}
+				for _, b := range home.Blocks {
 					if iff, ok := b.Instrs[len(b.Instrs)-1].(*ssa.If); ok && litEq(NormAtom(iff.Cond, true), "recv.reconnTime > recv.reconnMaxTime") {
 						cmp = iff
 					}
